@@ -55,7 +55,61 @@ func (r *rng) below(n int) int { return int(r.next() % uint64(n)) }
 type op struct {
 	key  int
 	fail bool
-	val  int // value the callable returns when it succeeds
+	val  int // value the callable returns when it succeeds (kind 0), and the identity of the op in traces
+	// what kind of Starlark value a succeeding callable returns: 0 = the int `val` (all streams whose traces go to the
+	// model); 1.. = None, False, 0, "", (), [], a fresh non-empty list, 1, "v<key>" (hook-free judge stream)
+	kind int
+}
+
+const nKinds = 9
+
+// the value a succeeding callable returns
+func (o op) value() starlark.Value {
+	switch o.kind {
+	case 1:
+		return starlark.None
+	case 2:
+		return starlark.False
+	case 3:
+		return starlark.MakeInt(0)
+	case 4:
+		return starlark.String("")
+	case 5:
+		return starlark.Tuple{}
+	case 6:
+		return starlark.NewList(nil)
+	case 7:
+		return starlark.NewList([]starlark.Value{starlark.MakeInt(o.val)})
+	case 8:
+		return starlark.MakeInt(1)
+	case 9:
+		return starlark.String(fmt.Sprintf("v%d", o.key))
+	}
+	return starlark.MakeInt(o.val)
+}
+
+// "the same value": the very object for mutable values, equality otherwise
+func sameValue(a, b starlark.Value) bool {
+	if a == nil || b == nil {
+		return a == nil && b == nil
+	}
+	la, oka := a.(*starlark.List)
+	lb, okb := b.(*starlark.List)
+	if oka || okb {
+		return oka && okb && la == lb
+	}
+	eq, err := starlark.Equal(a, b)
+	return err == nil && eq
+}
+
+func showValue(v starlark.Value) string {
+	if v == nil {
+		return "<nil>"
+	}
+	if l, ok := v.(*starlark.List); ok {
+		return fmt.Sprintf("%s@%p", l.String(), l)
+	}
+	return v.String()
 }
 
 type config [][]op
@@ -71,6 +125,8 @@ func (c config) String() string {
 		for _, o := range p {
 			if o.fail {
 				os = append(os, fmt.Sprintf("%d:f", o.key))
+			} else if o.kind != 0 {
+				os = append(os, fmt.Sprintf("%d:%d@%d", o.key, o.val, o.kind))
 			} else {
 				os = append(os, fmt.Sprintf("%d:%d", o.key, o.val))
 			}
@@ -97,11 +153,18 @@ func parseConfig(s string) (config, error) {
 				if kv[1] == "f" {
 					p = append(p, op{key: k, fail: true})
 				} else {
-					v, err := strconv.Atoi(kv[1])
+					vk := strings.Split(kv[1], "@")
+					v, err := strconv.Atoi(vk[0])
 					if err != nil {
 						return nil, err
 					}
-					p = append(p, op{key: k, val: v})
+					kind := 0
+					if len(vk) == 2 {
+						if kind, err = strconv.Atoi(vk[1]); err != nil {
+							return nil, err
+						}
+					}
+					p = append(p, op{key: k, val: v, kind: kind})
 				}
 			}
 		}
@@ -165,13 +228,15 @@ type run struct {
 	// lock state as observed (controlled mode)
 	writer bool
 	// judge observations
-	okCalls   map[int][]int // key -> values returned by successful callable invocations
+	okCalls   map[int][]int            // key -> values returned by successful callable invocations
+	okVals    map[int][]starlark.Value // the same, as the Starlark values handed out
 	failCalls map[int]int
 	rets      []ret
 }
 
 type ret struct {
 	tid, key int
+	v        starlark.Value // what once returned
 	val      int
 	err      bool
 	invoked  bool // this op's own callable ran
@@ -279,11 +344,14 @@ func (r *run) caller(t *thr, prog []op, cache starlark.Value) {
 			// user code running inside the critical section: a scheduling point
 			r.yield(t, "call")
 			invoked = true
+			var produced starlark.Value
 			r.mu.Lock()
 			if o.fail {
 				r.failCalls[o.key]++
 			} else {
+				produced = o.value()
 				r.okCalls[o.key] = append(r.okCalls[o.key], o.val)
+				r.okVals[o.key] = append(r.okVals[o.key], produced)
 			}
 			r.mu.Unlock()
 			if o.fail {
@@ -291,7 +359,7 @@ func (r *run) caller(t *thr, prog []op, cache starlark.Value) {
 				return nil, fmt.Errorf("callable failed")
 			}
 			r.emit(t, fmt.Sprintf("callok.%d", o.val))
-			return starlark.MakeInt(o.val), nil
+			return produced, nil
 		})
 		th := &starlark.Thread{Name: fmt.Sprintf("caller%d", t.id)}
 		g, err := snippetProg.Init(th, starlark.StringDict{
@@ -304,6 +372,7 @@ func (r *run) caller(t *thr, prog []op, cache starlark.Value) {
 		} else {
 			n, _ := starlark.AsInt32(g["v"])
 			rt.val = n
+			rt.v = g["v"]
 			// fill in the value of the hit events of this op (the read/recheck hooks do not see the value)
 			p := fmt.Sprintf("%d.", t.id)
 			for i := len(r.log) - 1; i >= 0; i-- {
@@ -343,27 +412,48 @@ type result struct {
 
 // what one more call once(key, callable returning 999) on the same cache does after the run
 type keyProbe struct {
-	invoked bool   // its callable ran: the key was absent
-	val     int    // the value it returned
-	err     string // it returned an error (a later call must never inherit an earlier failure)
+	invoked bool           // its callable ran: the key was absent
+	val     int            // the value it returned (as int, for the traces)
+	v       starlark.Value // the value it returned
+	err     string         // it returned an error (a later call must never inherit an earlier failure)
+	hung    bool           // it never returned: the cache is wedged
 }
+
+const probeTimeout = 3 * time.Second
 
 func probeKeys(c config, cache starlark.Value) map[int]keyProbe {
 	ps := map[int]keyProbe{}
 	for _, k := range c.keys() {
-		kp := keyProbe{}
-		probe := starlark.NewBuiltin("probe", func(th *starlark.Thread, b *starlark.Builtin, args starlark.Tuple, kwargs []starlark.Tuple) (starlark.Value, error) {
-			kp.invoked = true
-			return starlark.MakeInt(999), nil
-		})
-		g, err := snippetProg.Init(&starlark.Thread{Name: "probe"}, starlark.StringDict{
-			"cache": cache, "KEY": starlark.String(fmt.Sprintf("k%d", k)), "probe": probe})
-		if err != nil {
-			kp.err = err.Error()
-		} else {
-			kp.val, _ = starlark.AsInt32(g["v"])
+		ch := make(chan keyProbe, 1)
+		go func(k int) {
+			kp := keyProbe{}
+			probe := starlark.NewBuiltin("probe", func(th *starlark.Thread, b *starlark.Builtin, args starlark.Tuple, kwargs []starlark.Tuple) (starlark.Value, error) {
+				kp.invoked = true
+				return starlark.MakeInt(999), nil
+			})
+			g, err := snippetProg.Init(&starlark.Thread{Name: "probe"}, starlark.StringDict{
+				"cache": cache, "KEY": starlark.String(fmt.Sprintf("k%d", k)), "probe": probe})
+			if err != nil {
+				kp.err = err.Error()
+			} else {
+				kp.v = g["v"]
+				kp.val, _ = starlark.AsInt32(g["v"])
+			}
+			ch <- kp
+		}(k)
+		select {
+		case kp := <-ch:
+			ps[k] = kp
+		case <-time.After(probeTimeout):
+			// late: wedged, unless the machine starved us
+			select {
+			case kp := <-ch:
+				ps[k] = kp
+			case <-time.After(probeTimeout):
+				ps[k] = keyProbe{hung: true}
+				return ps // the cache is abandoned (with the goroutine stuck in it)
+			}
 		}
-		ps[k] = kp
 	}
 	return ps
 }
@@ -379,7 +469,7 @@ func newCache() starlark.Value {
 
 func newRun(controlled bool) *run {
 	return &run{controlled: controlled, byGid: map[int64]*thr{}, parked: make(chan parkMsg, 64),
-		okCalls: map[int][]int{}, failCalls: map[int]int{}}
+		okCalls: map[int][]int{}, okVals: map[int][]starlark.Value{}, failCalls: map[int]int{}}
 }
 
 const stepWatchdog = 60 * time.Second
@@ -514,7 +604,15 @@ func (res *result) finish(c config) {
 	}
 	// the cache's content is observed through the builtin itself (no access to the representation): a later call
 	// that does not invoke its callable returns what is cached
+	r.mu.Unlock()
 	res.probes = probeKeys(c, res.cache)
+	r.mu.Lock()
+	for _, kp := range res.probes {
+		if kp.hung {
+			res.outcome = "HANG-AFTERWARDS"
+			return
+		}
+	}
 	var e, ok, fl, rs, rt []string
 	for _, k := range c.keys() {
 		if kp := res.probes[k]; kp.err != "" {
@@ -546,6 +644,8 @@ func (res *result) finish(c config) {
 }
 
 // ---------------------------------------------------------------- the judge (the property's own predicate)
+var hangsFound = 0 // real hangs (confirmed without hooks); after a few the remaining streams are pointless
+
 var (
 	out   = bufio.NewWriterSize(os.Stdout, 1<<20)
 	stats = map[string]int{}
@@ -567,7 +667,7 @@ func violation(kind string, c config, res *result, detail string, mode string) {
 func judge(c config, res *result, mode string) {
 	stats["judged_runs"]++
 	if res.outcome != "done" {
-		if mode == "sched" {
+		if mode == "sched" && res.outcome != "HANG-AFTERWARDS" {
 			// the controller lost track of the goroutines. Is it the code that hangs, or the hook protocol that no longer
 			// matches the code? Run the same callers without any hook: if they finish, the controller derailed — that is a
 			// broken correspondence (reported by the check), not a failing input.
@@ -585,7 +685,12 @@ func judge(c config, res *result, mode string) {
 			}
 			mode = "nohook"
 		}
-		violation("hang", c, res, res.outcome+": callers did not finish", mode)
+		detail := res.outcome + ": callers did not finish"
+		if res.outcome == "HANG-AFTERWARDS" {
+			detail = "HANG-AFTERWARDS: the callers finished, but one more once() on the same cache never returns (the cache is wedged)"
+		}
+		violation("hang", c, res, detail, mode)
+		hangsFound++
 		return
 	}
 	r := res.r
@@ -607,8 +712,8 @@ func judge(c config, res *result, mode string) {
 		if !x.invoked {
 			stats["cached_returns"]++
 		}
-		if len(r.okCalls[x.key]) == 0 || r.okCalls[x.key][0] != x.val {
-			violation("different-value", c, res, fmt.Sprintf("thread %d got %d for key %d; successful invocations: %v", x.tid, x.val, x.key, r.okCalls[x.key]), mode)
+		if len(r.okVals[x.key]) == 0 || !sameValue(r.okVals[x.key][0], x.v) {
+			violation("different-value", c, res, fmt.Sprintf("thread %d got %s for key %d; successful invocations returned: %v", x.tid, showValue(x.v), x.key, r.okVals[x.key]), mode)
 		}
 	}
 	// retry / reuse: the one more sequential call per key made after the run
@@ -625,8 +730,8 @@ func judge(c config, res *result, mode string) {
 			}
 		} else {
 			stats["reuse_probes"]++
-			if kp.invoked || kp.val != r.okCalls[k][0] {
-				violation("recomputed-later", c, res, fmt.Sprintf("key %d: later call invoked=%v got %d want %d", k, kp.invoked, kp.val, r.okCalls[k][0]), mode)
+			if kp.invoked || !sameValue(kp.v, r.okVals[k][0]) {
+				violation("recomputed-later", c, res, fmt.Sprintf("key %d: a callable succeeded with %s, yet a later call invoked=%v got %s", k, showValue(r.okVals[k][0]), kp.invoked, showValue(kp.v)), mode)
 			}
 		}
 	}
@@ -797,24 +902,54 @@ func main() {
 	tn := time.Now()
 	seqs := progsOfLen(2, 4)
 	sort.SliceStable(seqs, func(i, j int) bool { return len(seqs[i]) < len(seqs[j]) }) // shortest failing sequence first
+	// each sequence runs in its own goroutine on a fresh cache under a timeout; a wedged cache is abandoned
 	for _, p := range seqs {
-		c := copyConfig(p)
-		res := runNoHook(c, 10*time.Second)
-		stats["nohook_sequential"]++
-		judge(c, res, "nohook")
+		// succeeding callables return every kind of value: ints, None, False, 0, "", (), [], a fresh list, 1, "v<key>"
+		for k0 := 0; k0 <= nKinds && hangsFound < 3; k0++ {
+			c := copyConfig(p)
+			nOk := 0
+			for i := range c[0] {
+				if !c[0][i].fail {
+					if k0 > 0 {
+						c[0][i].kind = 1 + (k0-1+nOk)%nKinds
+					}
+					nOk++
+				}
+			}
+			if k0 > 0 && nOk == 0 {
+				break
+			}
+			res := runNoHook(c, 2*time.Second)
+			stats["nohook_sequential"]++
+			judge(c, res, "nohook")
+		}
 	}
 	nNoHook := 3000
 	if thorough {
 		nNoHook = 60000
 	}
-	for i := 0; i < nNoHook; i++ {
+	for i := 0; i < nNoHook && hangsFound < 3; i++ {
 		c := randomConfig(r, 8, 4, 3)
+		if i%2 == 1 {
+			for t := range c {
+				for j := range c[t] {
+					c[t][j].kind = r.below(nKinds + 1)
+				}
+			}
+		}
 		res := runNoHook(c, 10*time.Second)
 		stats["nohook_concurrent"]++
 		judge(c, res, "nohook")
 	}
 	stats["nohook_ms"] = int(time.Since(tn).Milliseconds())
 	out.Flush()
+	if hangsFound > 0 {
+		// once() hangs for real (confirmed without any hook): the remaining streams would only hang as well
+		stats["streams_skipped_after_hang"] = 1
+		sb, _ := json.Marshal(stats)
+		fmt.Fprintf(out, "S\t%s\n", sb)
+		return
+	}
 
 	t0 := time.Now()
 	// controlled mode runs one goroutine at a time: a single P makes the hand-offs cheap
